@@ -276,6 +276,10 @@ def ooid : Option Nat → String
 def readRef (c : Core) (i : Nat) : Option Nat :=
   if i < c.n ∧ (c.objs i).destructed = false then some i else none
 
+/-- a destructed object cannot call_other() to translate an object into its harness id: unknown -/
+def roid (c : Core) (self : Nat) (v : Option Nat) : String :=
+  if (c.objs self).destructed then "?" else ooid v
+
 structure R where
   w : World
   out : Out := .ok
@@ -330,11 +334,17 @@ def exec (sc : Scripts) : Nat → Task → World → R
         match op with
         | .ld b =>
           (exec sc f (.load b) w).andThen fun w v =>
-            -- objectp(load_object(..)) is evaluated on the value the efun left on the stack
-            { w := emit w s!"r ld {b.str} {ooid (v.bind (readRef w.c))} {if v.isSome then 1 else 0}" }
+            -- do_op: `t = typeof (load_object (p)); ob = find_object (p);` - typeof sees the value the efun left on
+            -- the stack, the object itself is fetched by a second lookup
+            let nm : Name := { base := b, num := none }
+            if anyFreed w.c (w.c.ot (hashN nm)) then crashR w "find_obj_n"
+            else
+              let r := lookupC w.c nm
+              let w := { w with c := r.1 }
+              { w := emit w s!"r ld {b.str} {roid w.c self (r.2.bind (readRef w.c))} {if v.isSome then 1 else 0}" }
         | .cl b =>
           (exec sc f (.clone b) w).andThen fun w v =>
-            { w := emit w s!"r cl {b.str} {ooid (v.bind (readRef w.c))}" }
+            { w := emit w s!"r cl {b.str} {roid w.c self (v.bind (readRef w.c))}" }
         | .mv a d =>
           match readRef w.c a, readRef w.c d with
           | some a, some d =>
@@ -397,7 +407,8 @@ def exec (sc : Scripts) : Nat → Task → World → R
         let w := match k with
           | .create => emit w s!"new {oid x} {(w.c.objs x).name.str}"
           | _ => emit w s!"hb {oid x} {k.str} {ooid arg}"
-        (exec sc f (.ops x arg (sc x k n)) w).andThen fun w _ =>
+        -- only move_or_destruct(dest) hands its argument to the script
+        (exec sc f (.ops x (if k = .mod then arg else none) (sc x k n)) w).andThen fun w _ =>
           { w := emit w s!"he {oid x} {k.str}" }
     | .load b =>
       let nm : Name := { base := b, num := none }
